@@ -276,6 +276,12 @@ func (o *OAuth2) End(w http.ResponseWriter, r *http.Request) error {
 		}
 	}
 
+	if !authboss.IsLocalRedirect(redirect) {
+		// the redir parameter carried through the round trip is client
+		// supplied: never let it send the browser to another site
+		redirect = o.Authboss.Config.Paths.OAuth2LoginOK
+	}
+
 	handled, err = o.Authboss.Events.FireAfter(authboss.EventOAuth2, w, r)
 	if err != nil {
 		return err
